@@ -692,7 +692,7 @@ func (in *Interp) toDec(v Value) *DecV {
 	return d
 }
 
-var unicodeReps = []rune{0x100, 0x101, 0x3b1, 0x410, 0x661, 0x966, 0x300, 0x2003, 0x2028, 0x3000, 0x20ac, 0x4e2d, 0xfffd, 0x1d11e, 0x1f600, 0x10fffd}
+var unicodeReps = []rune{0x101, 0x410, 0x661, 0x300, 0x2003, 0x4e2d, 0xfffd, 0x1d11e, 0x10fffd}
 
 func registerStubs(w *World) {
 	S := w.Stubs
@@ -785,7 +785,7 @@ func registerStubs(w *World) {
 			// categories (letters of both cases, digits, marks, spaces, symbols,
 			// CJK, the replacement character, astral and last-plane code points);
 			// other values of the code point are outside the claim
-			in.Assumptions["unicode."+name+" above U+00FF: decided for 16 representative code points"] = true
+			in.Assumptions["unicode."+name+" above U+00FF: decided for 9 representative code points"] = true
 			reps := unicodeReps
 			alts := make([]*Term, len(reps))
 			for i, c := range reps {
